@@ -61,8 +61,8 @@ def oracle(r):
         if g is not None and g < (p["ri_ms"] or 100) * 1000 - 1000:
             why.append("two consecutive failing Pop calls only %d us apart, RetryInterval is %d ms" % (g, p["ri_ms"] or 100))
     for k, n in r["execs"].items():
-        if n > r["trigger_calls"].get(k, 0):
-            why.append("job %s executed %d times for %d fetched fire times" % (k, n, r["trigger_calls"].get(k, 0)))
+        if n > r["distinct_fire_times_fetched"].get(k, 0):
+            why.append("job %s was executed %d times for %d distinct fire times fetched (a fire time executed twice)" % (k, n, r["distinct_fire_times_fetched"].get(k, 0)))
     return why
 
 
